@@ -129,6 +129,9 @@ pub fn err_name_yuv(e: YuvError) -> &'static str {
         YuvError::InvalidLumaWidth => "InvalidLumaWidth",
         YuvError::InvalidLumaHeight => "InvalidLumaHeight",
         YuvError::InvalidData => "InvalidData",
+        // a variant added after this harness was written: reported by name-less tag, judged by TLC like any other outcome
+        #[allow(unreachable_patterns)]
+        _ => "OtherYuvError",
     }
 }
 pub fn err_name_conv(e: yuvxyb::ConversionError) -> &'static str {
@@ -140,5 +143,7 @@ pub fn err_name_conv(e: yuvxyb::ConversionError) -> &'static str {
         E::UnspecifiedColorPrimaries => "UnspecifiedColorPrimaries",
         E::UnsupportedTransferCharacteristic => "UnsupportedTransferCharacteristic",
         E::UnspecifiedTransferCharacteristic => "UnspecifiedTransferCharacteristic",
+        #[allow(unreachable_patterns)]
+        _ => "OtherConversionError",
     }
 }
